@@ -1,18 +1,28 @@
 #!/bin/bash
-# tools/seedtest.sh Cxx — apply each /tmp/seed_Cxx_out/k/patch.diff to /repo, run the quick check, undo.
-P=$1
+# tools/seedtest.sh Cxx [--inplace] — run the quick check against each seeded change.
+# Default: in an isolated scratch worktree of /repo HEAD (VERIF_REPO), so that checks other people run against
+# /repo at the same time are not disturbed.  --inplace: apply to /repo itself and undo (the final confirmation).
+P=$1; MODE=$2
 cd /verif
+SRC=/tmp/seed_${P}_out; [ -d $SRC ] || SRC=/root/seeded_stash
 for k in 1 2 3; do
-  d=/tmp/seed_${P}_out/$k
+  if [ -d /tmp/seed_${P}_out/$k ]; then d=/tmp/seed_${P}_out/$k; elif [ -d /verif/seeded/$P-$k ]; then d=/verif/seeded/$P-$k; else d=/root/seeded_stash/$P-$k; fi
   [ -f $d/patch.diff ] || continue
-  if git -C /repo apply --check $d/patch.diff 2>/dev/null; then
+  if [ "$MODE" = "--inplace" ]; then
+    git -C /repo apply --check $d/patch.diff 2>/dev/null || { echo "seed $P-$k: patch does not apply"; continue; }
     git -C /repo apply $d/patch.diff
-    VERIF_JOBS=8 ./check $P --tier quick > build/seedtest_${P}_$k.log 2>&1
-    rc=$?
+    VERIF_JOBS=8 ./check $P --tier quick > build/seedtest_${P}_$k.log 2>&1; rc=$?
     git -C /repo checkout -- .
-    echo "seed $P-$k rc=$rc  $(grep -c '^VIOLATION' build/seedtest_${P}_$k.log) violation lines; $(grep -E '^\[.*->' build/seedtest_${P}_$k.log | head -2 | cut -c1-220 | tr '\n' '|')"
   else
-    echo "seed $P-$k: patch does not apply to current /repo HEAD"
+    W=/tmp/seedtest_wt_$P
+    [ -d $W ] || git -C /repo worktree add -q --detach $W HEAD
+    git -C $W checkout -q --detach $(git -C /repo rev-parse HEAD); git -C $W checkout -q -- .
+    git -C $W apply --check $d/patch.diff 2>/dev/null || { echo "seed $P-$k: patch does not apply"; continue; }
+    git -C $W apply $d/patch.diff
+    VERIF_REPO=$W VERIF_JOBS=8 ./check $P --tier quick > build/seedtest_${P}_$k.log 2>&1; rc=$?
+    git -C $W checkout -q -- .
   fi
+  echo "seed $P-$k rc=$rc  $(grep -c '^VIOLATION' build/seedtest_${P}_$k.log) violation lines; $(grep -E '^\[.*->' build/seedtest_${P}_$k.log | head -2 | cut -c1-200 | tr '\n' '|')"
 done
+[ "$MODE" = "--inplace" ] || git -C /repo worktree remove --force /tmp/seedtest_wt_$P 2>/dev/null
 git -C /repo status --short | head -3
